@@ -22,8 +22,8 @@ def P(pid, rules, explanation, not_decided, assumptions=(), design="3"):
                           assumptions=list(assumptions), design=f"DESIGN.md section {design}")
 
 
-P("C01", ["IDX", "RETRY", "SIGN", "FREE", "CPFORM", "ARGNAME", "DIRECTION", "RATIOFORM", "PGFORM", "SUBFORM", "SHARED", "GETB", "SF4", "ESC", "BPWALK", "EXIT"],
-  "(EXIT) a projected-gradient message is only reported when the projected gradient of the returned (x, jac) was just tested against gtol; (BPWALK) the breakpoint walk skips variables already on a bound, stops as soon as the segment holds its minimiser and examines the breakpoints in sorted order; (SF4, ESC) the wrapper hands out a new array for every gradient, never its memo or the user's own buffer, so the stored gradients stay distinct objects (otherwise y = 0 and the solver stalls); (GETB) the box the solver works in is the caller's box (a side becomes infinite only when it is None); (SHARED, conservative) the kernels keep no module-level state between calls, so an iteration depends on this run only; Structural necessary conditions of C01, decided on every path of the source: (IDX) index-space typing of "
+P("C01", ["IDX", "RETRY", "SIGN", "FREE", "CPFORM", "ARGNAME", "DIRECTION", "RATIOFORM", "PGFORM", "SUBFORM", "SHARED", "GETB", "SF4", "ESC", "BPWALK", "EXIT", "SF6"],
+  "(SF6) the user's objective and gradient each receive a private copy of the point, so that a callable working in place on its argument cannot move the point at which the other value is then computed (f and g handed to the solver belong to the same x); (EXIT) a projected-gradient message is only reported when the projected gradient of the returned (x, jac) was just tested against gtol; (BPWALK) the breakpoint walk skips variables already on a bound, stops as soon as the segment holds its minimiser and examines the breakpoints in sorted order; (SF4, ESC) the wrapper hands out a new array for every gradient, never its memo or the user's own buffer, so the stored gradients stay distinct objects (otherwise y = 0 and the solver stalls); (GETB) the box the solver works in is the caller's box (a side becomes infinite only when it is None); (SHARED, conservative) the kernels keep no module-level state between calls, so an iteration depends on this run only; Structural necessary conditions of C01, decided on every path of the source: (IDX) index-space typing of "
   "get_cauchy_point shows the sorted breakpoint list is filtered and walked in its own rank space, so variables "
   "resting on a bound with the gradient pushing outward (t = 0) cannot scramble the breakpoint order -- the "
   "defect behind the stalls the property names; (RETRY) a failed line search aborts only after a retry from a "
@@ -69,15 +69,15 @@ P("C05", ["COH", "CNT", "FIELDS", "SF1", "SF3", "SF5", "SF6", "ESC", "SF4", "RES
   "field agreement; the wrapper's own counting / caching rules are those of C15.",
   "bit-equality of the user's arithmetic between two calls (trusted: same call); determinism of user code",
   design="3/C05")
-P("C06", ["ORIENT", "FIELDS", "MEM", "OWN", "FDB", "BIND", "SFREAD", "UNITS", "MAXLEN", "RESTARTX", "BFGSFORM", "REBUILD", "STEPINIT", "ANCHOR"],
-  "(ANCHOR) the restoration anchors the retained points at checkpoint.x, so every path of the per-iteration memory update must store the new point -- otherwise the state emitted after a rejected pair restarts with another memory than the live run holds; (STEPINIT) the first trial step never exceeds the largest feasible step, so that a last-bit difference in the direction of a restarted run cannot abort its first line search; (REBUILD) a restart turns the restored history into matrices before its first iteration; (RESTARTX) the continuation starts at exactly the checkpoint's point; (BFGSFORM) the limited-memory matrices are rebuilt from the restored history X, G alone, so nothing but the checkpoint determines the continuation; (MAXLEN) a history deque built with maxlen= is bounded by exactly maxcor + 1; (UNITS) values read back from a checkpoint are used in the unit they were stored in (writer/reader agreement on the scaling factor); (OWN) decoding a checkpoint does not write into it, (FDB) differencing options depend on the caller's arguments only, (BIND) the line search sees the global iteration number, (SFREAD) the solver reads no evaluation history of the wrapper, which a restart cannot reproduce; (ORIENT) orientation typing of the checkpoint decoder: increments accumulated from the newest pair backwards, "
+P("C06", ["ORIENT", "FIELDS", "MEM", "OWN", "FDB", "BIND", "SFREAD", "UNITS", "MAXLEN", "RESTARTX", "BFGSFORM", "REBUILD", "STEPINIT", "ANCHOR", "CARRIED"],
+  "(CARRIED) every quantity computed from its own previous value (iteration counter, streaks, running extrema; attributes of the state object and locals of the main loop) is initialised from the checkpoint on a restart; (ANCHOR) the restoration anchors the retained points at checkpoint.x, so every path of the per-iteration memory update must store the new point -- otherwise the state emitted after a rejected pair restarts with another memory than the live run holds; (STEPINIT) the first trial step never exceeds the largest feasible step, so that a last-bit difference in the direction of a restarted run cannot abort its first line search; (REBUILD) a restart turns the restored history into matrices before its first iteration; (RESTARTX) the continuation starts at exactly the checkpoint's point; (BFGSFORM) the limited-memory matrices are rebuilt from the restored history X, G alone, so nothing but the checkpoint determines the continuation; (MAXLEN) a history deque built with maxlen= is bounded by exactly maxcor + 1; (UNITS) values read back from a checkpoint are used in the unit they were stored in (writer/reader agreement on the scaling factor); (OWN) decoding a checkpoint does not write into it, (FDB) differencing options depend on the caller's arguments only, (BIND) the line search sees the global iteration number, (SFREAD) the solver reads no evaluation history of the wrapper, which a restart cannot reproduce; (ORIENT) orientation typing of the checkpoint decoder: increments accumulated from the newest pair backwards, "
   "subtracted from the newest point, appended oldest-first, identical shape for X and G -- the inverse of the "
   "encoder fixed by SIB; (FIELDS) every field a restart reads is written by every result and lands in the live "
   "variable it came from; (MEM) the refill is bounded by maxcor+1 points and drops from the left, so reducing "
   "maxcor keeps the most recent pairs.",
   "agreement 'up to rounding' of the continued iterates with the uninterrupted run (arithmetic)", design="3/C06")
-P("C07", ["ESC", "NITOFF", "SIB", "CBUSE", "CNT", "FIELDS", "ORIENT", "DOWNHILL", "BIND", "SFREAD", "LSCAP", "SHARED", "STEPINIT", "RETRY", "FDB", "ANCHOR"],
-  "(ANCHOR) the restoration anchors the retained points at checkpoint.x, so every path of the per-iteration memory update must store the new point -- otherwise the state emitted after a rejected pair restarts with another memory than the live run holds; (FDB) the finite-difference options are the caller's values, not quantities derived from the point at which the wrapper happens to be built (a restarted run builds it elsewhere); (RETRY) the decision to abort after a failed search depends only on the memory length, which the callback state carries; (STEPINIT) the first trial step never exceeds the largest feasible step, so that a last-bit difference in the direction of a restarted run cannot abort its first line search; (SHARED) no solver state lives outside what the callback state carries (no module-level state written by the package); (LSCAP) the line-search cap is computed from the counters at the time of use, so a restart sees the same cap as the uninterrupted run; (SFREAD, DOWNHILL, BIND) the line search depends only on quantities a checkpoint carries: start value, global iteration number, evaluators; (ESC) may-alias origins of everything handed to the callback are disjoint from the targets of every in-place "
+P("C07", ["ESC", "NITOFF", "SIB", "CBUSE", "CNT", "FIELDS", "ORIENT", "DOWNHILL", "BIND", "SFREAD", "LSCAP", "SHARED", "STEPINIT", "RETRY", "FDB", "ANCHOR", "CARRIED"],
+  "(CARRIED) every quantity computed from its own previous value (iteration counter, streaks, running extrema; attributes of the state object and locals of the main loop) is initialised from the checkpoint on a restart; (ANCHOR) the restoration anchors the retained points at checkpoint.x, so every path of the per-iteration memory update must store the new point -- otherwise the state emitted after a rejected pair restarts with another memory than the live run holds; (FDB) the finite-difference options are the caller's values, not quantities derived from the point at which the wrapper happens to be built (a restarted run builds it elsewhere); (RETRY) the decision to abort after a failed search depends only on the memory length, which the callback state carries; (STEPINIT) the first trial step never exceeds the largest feasible step, so that a last-bit difference in the direction of a restarted run cannot abort its first line search; (SHARED) no solver state lives outside what the callback state carries (no module-level state written by the package); (LSCAP) the line-search cap is computed from the counters at the time of use, so a restart sees the same cap as the uninterrupted run; (SFREAD, DOWNHILL, BIND) the line search depends only on quantities a checkpoint carries: start value, global iteration number, evaluators; (ESC) may-alias origins of everything handed to the callback are disjoint from the targets of every in-place "
   "write reachable afterwards; (NITOFF) counter-offset analysis: the state's nit equals the nit of a run stopped "
   "at that iteration; (SIB) the state and the final result bind the same keywords to the same expressions; "
   "(CBUSE) the callback's result only decides the user-callback stop and nothing else depends on the presence "
@@ -85,8 +85,8 @@ P("C07", ["ESC", "NITOFF", "SIB", "CBUSE", "CNT", "FIELDS", "ORIENT", "DOWNHILL"
   "restored into the wrapper from the right fields before any evaluation, (FIELDS) writer/reader field agreement, "
   "(ORIENT) the history decoder inverts the encoder.",
   "numerical equality of the continuation with the uninterrupted run", design="3/C07")
-P("C08", ["IDX", "SIGN", "PIN", "CPFORM", "RATIOFORM", "BFGSFORM", "OWN", "INVMFORM", "BPWALK", "INVMSYM", "USEFACT"],
-  "(USEFACT) a non-empty memory is never mistaken for an empty one (exact test in use_factor); (INVMSYM) the two triangular factors multiply to the inverse middle matrix of the stored pairs, and bmv applies them in the right order; (BPWALK) the breakpoint walk skips variables already on a bound, stops as soon as the segment holds its minimiser and examines the breakpoints in sorted order; (INVMFORM) the factors of the middle matrix are computed from D, L, S'S, theta by exact algebra (no floor or clamp); (BFGSFORM) the model handed to the kernel is the consistent compact form, (OWN) the kernel does not write the model it is given; (IDX) index-space typing of the breakpoint bookkeeping (the property's named defect); (SIGN) breakpoints "
+P("C08", ["IDX", "SIGN", "PIN", "CPFORM", "RATIOFORM", "BFGSFORM", "OWN", "INVMFORM", "BPWALK", "INVMSYM", "USEFACT", "BPVAL"],
+  "(BPVAL) every store into the breakpoint vector writes a breakpoint ((x - bound)/g, or inf where g = 0): no floor, snap or cap moves the point of the projected path where a variable meets its bound; (USEFACT) a non-empty memory is never mistaken for an empty one (exact test in use_factor); (INVMSYM) the two triangular factors multiply to the inverse middle matrix of the stored pairs, and bmv applies them in the right order; (BPWALK) the breakpoint walk skips variables already on a bound, stops as soon as the segment holds its minimiser and examines the breakpoints in sorted order; (INVMFORM) the factors of the middle matrix are computed from D, L, S'S, theta by exact algebra (no floor or clamp); (BFGSFORM) the model handed to the kernel is the consistent compact form, (OWN) the kernel does not write the model it is given; (IDX) index-space typing of the breakpoint bookkeeping (the property's named defect); (SIGN) breakpoints "
   "t >= 0 on both branches, pinned bound on the side of d, f' <= 0, f'' >= 0 at their definitions; (PIN) "
   "variables reaching a bound are pinned by copying the bound, not by arithmetic; (CPFORM) the initialisation, "
   "the per-breakpoint updates of c, f', f'', p, dt_min and the final segment are symbolically executed into a "
@@ -117,8 +117,8 @@ P("C11", ["BOX", "DOWNHILL", "LSBUD", "SIGN", "RATIOFORM", "FDB", "LSPROTO", "EV
   "evaluation per loop iteration, counter guard `< max_iter`, SciPy's DCSRCH._iterate calls no user function "
   "(checked on SciPy's source); (SIGN) the maximum step is non-negative.",
   "step in (0, stpmax] inside SciPy's DCSRCH (trusted contract)", design="3/C11")
-P("C12", ["CONST", "BIND", "ARGNAME", "DIRECTION", "OFFER", "STEPINIT", "BFGSFORM", "CPFORM", "ESC", "SF4", "NITOFF", "ORIENT", "FILTERWALK", "LSPROTO"],
-  "(LSPROTO) DCSRCH is driven as in Algorithm 778: the step it returned is fed back with the value and slope evaluated at that step, FG means evaluate, anything else ends the search; (FILTERWALK) with an update function installed the curvature filter visits every stored point (an identity hook must not change the run); (ORIENT) a run continued through a checkpoint restores the pairs in order; (CONST) the evaluated defaults of the line-search / curvature constants equal those of Algorithm 778 at every "
+P("C12", ["CONST", "BIND", "ARGNAME", "DIRECTION", "OFFER", "STEPINIT", "BFGSFORM", "CPFORM", "ESC", "SF4", "NITOFF", "ORIENT", "FILTERWALK", "LSPROTO", "SF1", "STPCAP"],
+  "(STPCAP) the step cap given to DCSRCH is max_allowed_steplength(..) and nothing else (single reaching definition), so the trial steps are those of the reference; (SF1) the wrapper serves a stored value only for exactly the point it was computed at, so the values the line search interpolates are those of the trial points of the reference run; (LSPROTO) DCSRCH is driven as in Algorithm 778: the step it returned is fed back with the value and slope evaluated at that step, FG means evaluate, anything else ends the search; (FILTERWALK) with an update function installed the curvature filter visits every stored point (an identity hook must not change the run); (ORIENT) a run continued through a checkpoint restores the pairs in order; (CONST) the evaluated defaults of the line-search / curvature constants equal those of Algorithm 778 at every "
   "sibling signature; (BIND) each constant reaches its consumer in the right slot (minimize -> line_search -> "
   "DCSRCH / dcsrch; eps_SY -> update_lbfgs_matrices / filter -> is_update_X_and_G); structural faithfulness of "
   "the iteration: (ARGNAME) no crossed argument slots at any internal call, (DIRECTION) d = subspace point - x from "
